@@ -1,4 +1,95 @@
-(* placeholder until ValidateProofs.v lands *)
-From Coercion.Validate Require Import Validate WF.
-Theorem c16_placeholder : True. Proof. exact I. Qed.
-Print Assumptions c16_placeholder.
+(* C16 - Submit admits exactly the well-formed plans; rejects leave no trace.
+
+   Model (transcription of workflow.Validate, Workstream.Submit, Plans.validateStartState): Validate.v.
+   Specification (declarative, no traversal): WF.v -
+     WF p  :=  WF_tree p /\ Forall key_form (keys_plan p) /\ NoDup (nonnil (keys_plan p))
+   where WF_tree says, as a plain conjunction over the tree: the plan / every block / sequence /
+   action has a non-blank name and description (actions also a non-blank plugin name); Blocks,
+   Sequences and every Actions list are non-nil, non-empty and hold no nil element; every
+   engine-owned field is unset (ID = uuid.Nil and State = nil on all five kinds of object, Attempts
+   = nil on actions, Reason = FRUnknown and SubmitTime zero on the plan); every action's Timeout is 0
+   or at least 5 s and its plugin is registered and accepts the request; absent check groups are
+   fine, present ones need at least one action.  keys_plan lists every Key of the tree, key_form k
+   is "nil or version 7", nonnil keeps the non-nil ones: they must be pairwise distinct across the
+   whole tree.
+   Proofs: ValidateProofs.v.  Concrete instances: ValidateExamples.v. *)
+From Coercion.Base Require Import Plan.
+From Coercion.Validate Require Import Validate WF ValidateProofs ValidateExamples.
+
+(* workflow.Validate accepts exactly the well-formed plans (a nil plan is rejected). *)
+Theorem c16_validate_iff :
+  forall op : option plan, validate op = true <-> exists p, op = Some p /\ WF p.
+Proof. exact validate_iff. Qed.
+Print Assumptions c16_validate_iff.
+
+(* the queue loop never runs out of its fuel (= number of nodes of the plan): validate's "false" is
+   always a rejection by a validator, never an artefact of the fuel *)
+Theorem c16_validate_fuel_ok :
+  forall p : plan, vloop (size_plan p) [] [VPlan p] <> None.
+Proof. exact validate_fuel_ok. Qed.
+Print Assumptions c16_validate_fuel_ok.
+
+(* the executable form of WF that the correspondence check evaluates is WF *)
+Theorem c16_wfb_reflects : forall p : plan, wfb p = true <-> WF p.
+Proof. exact wfb_iff. Qed.
+Print Assumptions c16_wfb_reflects.
+
+(* Submit.  supply = workflow.NewV7 (the n-th id drawn), assumed injective, never nil, version 7;
+   create_ok = the vault's own verdict on Create (C14).  w = (stored plans, ids drawn so far). *)
+Theorem c16_submit :
+  forall (supply : nat -> uid) (create_ok : plan -> bool),
+    (forall i j, u_ix (supply i) = u_ix (supply j) -> i = j) ->
+    (forall i, u_ix (supply i) <> 0%N /\ u_v7 (supply i) = true) ->
+  forall (now : Z) (regset : bool) (w : world) (op : option plan) (w' : world) (r : option uid),
+    submit supply create_ok now regset w op = (w', r) ->
+    (* a rejected plan leaves nothing in storage *)
+    (r = None -> w_store w' = w_store w) /\
+    (* accepted iff well formed (no action carrying a register, and the vault takes it) *)
+    ((exists id, r = Some id) <->
+     exists p, op = Some p /\ WF p /\ regset = false /\
+               create_ok (fst (prepared supply (w_next w) now p)) = true) /\
+    (* an accepted plan: stored once, definition = normal form of the submitted definition, every
+       object NotStarted with zero times and no attempts, submit time set, ids fresh (the next k of
+       the supply, k = number of objects), pairwise distinct, non-nil, version 7 *)
+    (forall id, r = Some id ->
+       exists p sp k, op = Some p /\ WF p /\
+         w_store w' = sp :: w_store w /\ p_id sp = id /\
+         defn sp = defn (normalize p) /\
+         pristine sp /\ p_submit sp = now /\
+         ids_plan sp = map supply (seq (w_next w) k) /\ w_next w' = w_next w + k /\
+         ids_good (ids_plan sp)).
+Proof. exact submit_spec. Qed.
+Print Assumptions c16_submit.
+
+(* Start refuses every plan in which some action of some check group (of the plan or of a block)
+   does not use a check plugin - whatever else the plan looks like. *)
+Theorem c16_start_rejects_noncheck :
+  forall (fresh : bool) (p : plan) (a : action),
+    In a (check_actions p) -> ~ uses_check_plugin a -> validate_start fresh (Some p) = false.
+Proof. exact start_rejects_noncheck. Qed.
+Print Assumptions c16_start_rejects_noncheck.
+
+(* ... and that is the only thing Start adds for a plan Submit has just stored: if all check
+   actions use check plugins, the stored plan is startable (so the refusal above is not vacuous) *)
+Theorem c16_start_accepts_submitted :
+  forall (supply : nat -> uid),
+    (forall i, u_ix (supply i) <> 0%N /\ u_v7 (supply i) = true) ->
+  forall (n : nat) (now : Z) (p sp : plan) (n' : nat),
+    WF p -> now <> 0%Z -> prepared supply n now p = (sp, n') ->
+    Forall uses_check_plugin (check_actions p) ->
+    validate_start true (Some sp) = true.
+Proof. exact start_prepared. Qed.
+Print Assumptions c16_start_accepts_submitted.
+
+(* the hypotheses are satisfiable: a 21-object plan that is WF, is accepted, and whose stored form
+   is pristine with good ids and startable (all by vm_compute in ValidateExamples.v) *)
+Theorem c16_nonvacuous :
+  WF ex_plan /\ validate (Some ex_plan) = true /\
+  (forall i j, u_ix (ex_supply i) = u_ix (ex_supply j) -> i = j) /\
+  (forall i, u_ix (ex_supply i) <> 0%N /\ u_v7 (ex_supply i) = true) /\
+  snd ex_result = Some (Build_uid 8 true) /\
+  validate (Some (ex_plan_with (k7 4))) = false.
+Proof.
+  exact (conj ex_WF (conj ex_validate (conj ex_supply_inj (conj ex_supply_v7 (conj ex_submit_accepts ex_dup_key))))).
+Qed.
+Print Assumptions c16_nonvacuous.
